@@ -57,7 +57,11 @@ pub enum SizeError {
         actual: u64,
     },
 
-    /// Binary read/write error
+    /// Total size does not fit the header field
+    #[error("Total size {0} does not fit the 40-bit field of a version 2 header")]
+    TotalSizeTooLarge(u64),
+
+    /// Binary parsing error
     #[error("Binary parsing error: {0}")]
     BinRead(String),
 
